@@ -273,8 +273,28 @@ class Inliner:
                 call, mode = st.value, 'assign'
             elif isinstance(st, ast.Return) and isinstance(st.value, ast.Call):
                 call, mode = st.value, 'return'
-            if call is None:
-                return None
+            hoisted = None
+            if call is None or self.resolve(call, modname, cls) is None:
+                # a helper called inside the statement's expression: evaluate it into a
+                # temporary first (`xs.extend(helper(a))` -> `_t = helper(a); xs.extend(_t)`)
+                if isinstance(st, (ast.Expr, ast.Assign, ast.AugAssign, ast.Return)) and \
+                        getattr(st, 'value', None) is not None:
+                    cands = []
+                    for n in ast.walk(st.value):
+                        if isinstance(n, (ast.Lambda, ast.ListComp, ast.SetComp, ast.DictComp,
+                                          ast.GeneratorExp, ast.IfExp, ast.BoolOp)):
+                            cands = None
+                            break
+                        if isinstance(n, ast.Call) and n is not st.value:
+                            r0 = self.resolve(n, modname, cls)
+                            if r0 is not None and _inlinable(r0[1]) and \
+                                    _single_return_expr(r0[1]) is None:
+                                cands.append(n)
+                    if cands and len(cands) == 1:
+                        hoisted = cands[0]
+                if hoisted is None:
+                    return None
+                call, mode = hoisted, 'hoist'
             r = self.resolve(call, modname, cls)
             if r is None:
                 return None
@@ -290,6 +310,25 @@ class Inliner:
                             return [ast.copy_location(ast.Expr(value=ret.value), ret)]
                         return []
                     new = _elim(body, [], on_return)
+                elif mode == 'hoist':
+                    tmp = '_inl_%s' % hfn.name.strip('_')
+                    targets = [ast.Name(id=tmp, ctx=ast.Store())]
+
+                    def on_return(ret):
+                        v = ret.value if ret.value is not None else ast.Constant(value=None)
+                        a = ast.Assign(targets=copy.deepcopy(targets), value=v)
+                        return [ast.copy_location(a, ret)]
+                    none = ast.Assign(targets=copy.deepcopy(targets),
+                                      value=ast.Constant(value=None))
+                    new = _elim(body, [ast.copy_location(none, st)], on_return)
+
+                    class Rep(ast.NodeTransformer):
+                        def visit_Call(self, node):
+                            if node is call:
+                                return ast.copy_location(ast.Name(id=tmp, ctx=ast.Load()), node)
+                            return self.generic_visit(node)
+                    st.value = Rep().visit(st.value)
+                    new = new + [st]
                 elif mode == 'assign':
                     def on_return(ret):
                         v = ret.value if ret.value is not None else ast.Constant(value=None)
